@@ -36,7 +36,20 @@ func VerifC13API() {
 		gs, _ := vGetS(got1, "s")
 		nd.Assert(gp == k1.p && gs == k1.s, "C13-stored-key-attributes-equal-the-key")
 	}
+	// the malformed keys below are also tried on a table that has just been emptied (by ClearTable, or by deleting
+	// its items one by one): validation does not depend on what the table holds
+	emptied := nd.Choice("table-state", 3)
+	switch emptied {
+	case 1:
+		nd.Assert(ClearTable(c, vTbl) == nil, "C13-clear-noerr")
+	case 2:
+		for _, k := range []vKey{k1, k2} {
+			_, derr := c.DeleteItem(vCtx, &dynamodb.DeleteItemInput{TableName: aws.String(vTbl), Key: k.item(true)})
+			nd.Assert(derr == nil, "C13-delete-noerr")
+		}
+	}
 	before := vScanAll(c)
+	nd.Assert(emptied == 0 || len(before) == 0, "C13-table-emptied")
 
 	// malformed keys are rejected and change nothing
 	bad := []vItem{
@@ -65,6 +78,11 @@ func VerifC13API() {
 	}
 	nd.Assert(vErrCode(berr) == "ValidationException", "C13-malformed-key-is-a-validation-error")
 	nd.Assert(vSameItems(before, vScanAll(c)), "C13-malformed-key-changes-nothing")
+	if emptied != 0 {
+		nd.Reach("malformed-key-on-empty-table")
+		nd.Reach("end")
+		return
+	}
 
 	// an update that names a key attribute cannot change the stored item's key
 	x := vKeyStr("x", cap)
@@ -132,10 +150,17 @@ func VerifC13NumericKeys() {
 		if len(got) > 0 {
 			nd.Assert(sameNumber(got["p"]), "C13-stored-key-attribute-keeps-its-value")
 		}
-		// an update of another attribute
+		// an update of another attribute - plain, or one that copies the key attribute and then computes on the copy
+		ue, uv := "SET v = :x", vItem{":x": vS("y")}
+		switch nd.Choice("update", 3) {
+		case 1:
+			ue, uv = "SET nx = p ADD nx :one", vItem{":one": vN("1")}
+		case 2:
+			ue, uv = "SET nx = p + :one, ny = :one - p", vItem{":one": vN("1")}
+		}
 		_, uerr := c.UpdateItem(vCtx, &dynamodb.UpdateItemInput{TableName: aws.String(vTbl), Key: vItem{"p": vN(g[w])},
-			UpdateExpression: aws.String("SET v = :x"), ExpressionAttributeValues: vItem{":x": vS("y")}})
-		nd.Assert(uerr == nil, "C13-numeric-update-noerr")
+			UpdateExpression: aws.String(ue), ExpressionAttributeValues: uv})
+		nd.Assert(uerr == nil, "C13-numeric-update-noerr ["+ue+"]")
 	}
 	all := vScanAll(c)
 	nd.Assert(len(all) == 1 && sameNumber(all[0]["p"]), "C13-one-item-whose-key-attribute-is-the-key")
